@@ -113,7 +113,7 @@ def _rtu_frame_at(d, data, pos, lenient_diag=True):
         if fc != 8:
             return None, 'bad'
         # diagnostic: data length is not self-describing; take the shortest CRC-valid even extent
-        for n in range(5, min(254, len(data) - pos - 2) + 1, 2):
+        for n in range(3, min(254, len(data) - pos - 2) + 1, 2):
             body = data[pos:pos + 1 + n]
             if data[pos + 1 + n:pos + 3 + n] == crc_bytes(body):
                 m = _try(d, body[1:])
@@ -230,7 +230,7 @@ def _binary_frames(d, data, start, end):
     out = []
     readings = []
     if crc == crc_bytes(body):
-        readings += [body, body[:2] + unescape_binary(body[2:]), unescape_binary(body)]
+        readings += [body[:2] + unescape_binary(body[2:]), unescape_binary(body), body]
     un = unescape_binary(body)
     if crc == crc_bytes(un):
         readings.append(un)
